@@ -117,6 +117,11 @@ func (sx *server) handleRequest(yl *yl.Ylog, src, dst net.IP, duid d.Duid, msg d
 		sx.sendNACK(msg.Xid, msg.ClientMAC)
 		return
 	}
+	// Keep the (possibly only provisional) lease alive while we verify the address.
+	if err := sx.ipdb.HoldClient(lease, duid, 15*time.Second); err != nil {
+		yl.Printf("REQUEST: HoldClient(%s, %s) failed: %v", lease, duid, err)
+		return
+	}
 	if !sx.arpVerify(msg.ClientMAC)(sx.ctx, lease) {
 		yl.Printf("REQUEST: Rejecting lease for '%s' as IP failed ARP check, sending NAK", lease)
 		sx.sendNACK(msg.Xid, msg.ClientMAC)
